@@ -141,3 +141,15 @@ func (s *Soft) Fatalf(format string, args ...any) {
 }
 
 func (s *Soft) Helper() {}
+
+// ShrinkLen is the enumeration's stand-in for rapid's shrinker: given a failing length l it returns
+// the smallest length in [0, l] for which the (side-effect free) predicate fails. Every shard of an
+// enumerated sub-check thereby reports the same minimal case.
+func ShrinkLen(l int, fails func(int) bool) int {
+	for n := 0; n < l; n++ {
+		if fails(n) {
+			return n
+		}
+	}
+	return l
+}
